@@ -14,14 +14,14 @@ def _redirect_dial(src):
 
 SPEC = dict(
     id="C25",
-    technique="Lean 4 invariant proofs (generic induction principle StepOK through pullOnce / peer loop / retry loop / call history) over an executable model of processEntry + pullOnce + FetchClient.Fetch + LocalBackend{StatFile,ReadToAt,WriteReader,AppendReader,Delete}, parameterised by three code facts regenerated from the source; differential correspondence of the real Puller + real FetchClient + real LocalBackend against the model after every attempt",
+    technique="Lean 4 invariant proofs (generic induction principle StepOK through pullOnce / peer loop / retry loop / call history) over an executable model of processEntry + pullOnce + FetchClient.Fetch + LocalBackend{StatFile,ReadToAt,WriteReader,AppendReader,Delete}, parameterised by four code facts regenerated from the source (StatFile .part fallback, Delete removes .part, presence check needs the final file, WriteReader renames only after the verified-EOF signal); differential correspondence of the real Puller + real FetchClient + real LocalBackend against the model after every attempt",
     level_text=(
         "Lean 4, for ALL fault histories (any number of processEntry calls, any number of attempts, any number of candidate peers per attempt, "
         "every outcome of the alphabet dial/err-ack/not-on-peer/bad-offset/wrong-size/wrong-hash/truncate@i/corrupt@i/ok, any file bytes, abstract digest H): "
-        "C25_final_correct (+_within, +_exact under the hypothesis CollisionFree H) — the final path only ever holds bytes with the manifest digest and size — proved for EVERY combination of the three code facts, i.e. also for the current source. "
+        "C25_final_correct (+_within, +_exact under the hypothesis CollisionFree H) — after every attempt the final path only holds bytes with the manifest digest and size — and C25_final_correct_during — the same at the point inside an attempt where the write goroutine has finished and before any cleanup Delete — proved for every combination of the presence/cleanup facts under the step-order obligation promoteAfterVerdict (WriteReader renames only after io.Copy on the caller's un-limited reader returned nil), which C25_promote_after_verdict discharges by `decide` on the fact regenerated from LocalBackend.WriteReader (C25_early_promote_witness: without it a full-length corrupted transfer is visible at the final path before the checksum verdict). "
         "C25_counts / C25_converges (counted skipped-local/pulled => complete at the final path; after any history one call with a healthy first peer ends complete) are proved for every fact combination that has a sound presence check or a Delete that removes .part (the latter for non-empty files and no full-size staging file at the start); C25_counters_status ties 'counted' to the two counters. "
         "For the CURRENT source (facts statPartFallback=1, deleteRemovesPart=0, presenceNeedsFinal=0, regenerated on every run; C25_generated) both clauses are REFUTED: C25_counts_witness / C25_converges_witness (corrupt byte 0, then a healthy peer) and the same replay on the real code; what is proved instead is C25_counts_partial / C25_converges_partial under the decidable carve-out 'no corrupted transfer in the history, non-empty file, initial staging file a proper prefix', plus the tight step statement C25_counts_step (wrong only when the presence check sees a full-size .part with no final file). "
-        "The model is diffed after every attempt (bytes at final and .part, six counters, resume offsets, status) against the real Puller.processEntry + real FetchClient.Fetch over an in-memory connection to a scripted peer + real LocalBackend in a temp dir: exhaustively over all outcome sequences for files of 0..3 bytes (<=2 attempts quick; <=3 attempts from every initial final/.part state and all 4-attempt sequences thorough), plus random multi-peer / multi-call histories incl. 40 KB files, a quarter of them through the real worker pool + RunCatchUp + FullyCaughtUp."
+        "The model is diffed after every attempt (bytes at final and .part, six counters, resume offsets, what every cleanup Delete found at the final path, status); a wrapping backend additionally samples the final path DURING attempts (before StatFile/ReadToAt/Delete, right after WriteReader/AppendReader return) for the transient monitor against the real Puller.processEntry + real FetchClient.Fetch over an in-memory connection to a scripted peer + real LocalBackend in a temp dir: exhaustively over all outcome sequences for files of 0..3 bytes (<=2 attempts quick; <=3 attempts from every initial final/.part state and all 4-attempt sequences thorough), plus random multi-peer / multi-call histories incl. 40 KB files, a quarter of them through the real worker pool + RunCatchUp + FullyCaughtUp."
     ),
     level_note="the active regime (repaired vs round-1 facts) is printed in evidence notes.regime",
     factgen=True,
@@ -55,5 +55,7 @@ def extra_stage(ctx):
         regime = "repaired (Delete removes .part): C25_counts / C25_converges apply to the current source for non-empty files and replicas without a full-size staging file at the start"
     else:
         regime = "round-1 facts: C25_counts / C25_converges are refuted by the witnesses; only the _partial theorems and C25_final_correct apply to the current source"
+    if not f.get("promote_after_verdict", True):
+        regime += "; STEP-ORDER OBLIGATION BROKEN: WriteReader no longer copies the caller's un-limited reader (copy source: %s) — C25_promote_after_verdict fails, every C25_final_correct* theorem loses its hypothesis" % f.get("write_reader_copy_source")
     ctx["notes"]["regime"] = regime
     ctx["notes"]["facts"] = f
